@@ -187,6 +187,13 @@ func cleanerCase(c *kit.Case) {
 // ticks), hence is due no earlier than any key of the burst.
 func cacheCase(c *kit.Case) {
 	r := c.R
+	if cleanerRunnerDead {
+		// consumer-cleaner-panic found the cleaner's task runner without a free slot and nobody to free
+		// one (reported there): every tick of the cleaner's wheel now parks another goroutine, so the
+		// goroutine census this case relies on has no baseline any more
+		c.Inconclusive("cache: the goroutine census has no baseline (goroutines of the cache cleaner are parked for ever, see consumer-cleaner-panic)")
+		return
+	}
 	measureBaseline()
 	if !quiesce(procBaseline) {
 		c.Inconclusive("goroutine count did not return to the process baseline")
@@ -281,5 +288,6 @@ func cacheCase(c *kit.Case) {
 
 func consumerFamilies(t *testing.T) {
 	kit.Run(t, "C12", "consumer-cleaner", kit.N(32, 600), cleanerCase)
+	kit.Run(t, "C12", "consumer-cleaner-panic", kit.N(16, 320), cleanerPanicCase) // consumer_panic_test.go
 	kit.Run(t, "C12", "consumer-cache", kit.N(16, 320), cacheCase)
 }
